@@ -50,8 +50,9 @@ WITNESS = {
 
 PROP_UNITS = {
     'C01': {'verus': ['int_prim', 'int_add'], 'kani': ['int_math', 'int_add_w'],
-            'undecided': ['pow_large_base, mul_large/square_large glue, Memory scratch allocator',
-                          'Repr-level dispatch (add_ops/mul_ops::repr) until its unit lands']},
+            'undecided': ['Memory scratch allocator sizing (opaque stubs)',
+                          'Karatsuba / Toom-3 / sqr / mul_dword_in_place bodies: seen by the dispatch units only through '
+                          'assumed contracts (exact product)']},
     'C13': {'verus': ['int_modadd'],
             'undecided': ['single/double-word residues (num_modular reducers, dependency)',
                           'negate_in_place / dbl_in_place (Iterator::all, shift kernel)', 'mul, pow, inv, conversions',
